@@ -118,7 +118,7 @@ def dump_sub(sn, point, methods, want_solution=True):
              'need_branch_current': bool(elt.need_branch_current),
              'need_extra_branch_current': bool(elt.need_extra_branch_current),
              'is_current_controlled': bool(elt.is_current_controlled),
-             'is_source': bool(elt.is_source)}
+             'is_source': bool(elt.is_source), 'eqn': bool(getattr(elt, 'equipotential_nodes', ()))}
         try:
             d['has_ic'] = bool(elt.cpt.has_ic)
         except Exception:
